@@ -384,9 +384,11 @@ def save_params(args):
             vals[1] = os.path.abspath(vals[1])
             args.read_group = ":".join(vals)
 
-    pickler = pickle.Pickler(open(args.param_file, "wb"),  -1)
-    pickler.dump(args)
-    pass
+    # a resumed run saves its parameters again: the file is replaced only when the new one is complete
+    unfinished_param_file = args.param_file + ".tmp"
+    with open(unfinished_param_file, "wb") as param_out:
+        pickle.Pickler(param_out, -1).dump(args)
+    os.replace(unfinished_param_file, args.param_file)
 
 
 # Check user's params
